@@ -74,14 +74,18 @@ func zz2Bytes(name string, n int) []byte {
 }
 
 // zz2Overlap runs `op` concurrently with `other`.
-// Under the engine: two goroutines, op once; the exploring scheduler supplies the interleavings.
-// Natively the Go scheduler cannot be told where to switch, so the harness makes the asynchronous pre-emption
-// of the Go runtime do the sampling: on ONE processor (GOMAXPROCS=1) the op goroutine repeats op back to back
-// (until it returns false or `other` has finished) while the `other` goroutine waits in the run queue; the
-// runtime pre-empts the spinning goroutine after its 10 ms slice at whatever instruction it happens to be, and
-// `other` then runs to completion inside that instruction gap. One call = one sample of the gap position;
-// zz2Repeat supplies the repetitions. Insensitive to the load of the machine (no parallelism needed).
-func zz2Overlap(op func() bool, other func()) {
+// Under the engine: two goroutines, op once, other once; the exploring scheduler supplies the interleavings.
+// Natively the Go scheduler cannot be told where to switch, so the harness lets the asynchronous pre-emption
+// of the Go runtime sample the switch points: on ONE processor (GOMAXPROCS=1) the op goroutine issues
+// prepare();op() again and again for the stress budget, while a second goroutine cycles other();rearm().
+// Whenever the runtime pre-empts the op goroutine (10 ms slice, at whatever instruction it happens to be) the
+// other goroutine runs its cycles inside that instruction gap and is itself pre-empted at an arbitrary point.
+// `rearm` re-establishes the state `other` started from (nil if other leaves it intact); `prepare` does the same
+// for op (nil for idempotent operations). op returns false to stop (a deviating answer was recorded).
+// The cycle always ends with `other`, so the final state is the one the engine's scenario ends in.
+// Needs no parallelism, hence insensitive to the load of the machine; the replays of this property are built
+// with -race (spec replay_flags), which turns atomic operations into calls and widens instruction-level windows.
+func zz2Overlap(prepare func(), op func() bool, other func(), rearm func()) {
 	var wg sync.WaitGroup
 	wg.Add(2)
 	if verifrt.Symbolic() {
@@ -96,22 +100,41 @@ func zz2Overlap(op func() bool, other func()) {
 		wg.Wait()
 		return
 	}
+	ms := verifrt.Param("STRESSMS", 300)
+	if verifrt.Param("CONFIRM", 0) == 1 {
+		ms = verifrt.Param("CONFIRMMS", 20000) // the engine replays a counterexample: look harder
+	}
+	deadline := time.Now().Add(time.Duration(ms) * time.Millisecond)
 	prev := runtime.GOMAXPROCS(1)
 	defer runtime.GOMAXPROCS(prev)
-	var started, done atomic.Bool
+	var started, stop atomic.Bool
 	go func() {
 		defer wg.Done()
 		for !started.Load() {
 			runtime.Gosched()
 		}
-		other()
-		done.Store(true)
+		for {
+			other()
+			if stop.Load() {
+				return
+			}
+			if rearm != nil {
+				rearm()
+			}
+		}
 	}()
 	go func() {
 		defer wg.Done()
+		defer stop.Store(true)
 		started.Store(true)
-		for !done.Load() {
+		for i := 0; ; i++ {
+			if prepare != nil && i > 0 {
+				prepare()
+			}
 			if !op() {
+				return
+			}
+			if i&63 == 0 && time.Now().After(deadline) {
 				return
 			}
 		}
@@ -211,32 +234,66 @@ func HarnessC02ConcBoth()  { zz2Conc(zz2LTQ | zz2LBloom) }
 // documented requirement on the datastore). Rebuild changes nothing observable, so the operation's answer must
 // be that of the uncached twin, and afterwards nothing stored is reported missing.
 func zz2ConcRebuild(ops []int) {
-	zz2Repeat(func() {
+	func() {
 		op := ops[zz2Range("op", 0, len(ops)-1)]
 		layers := zz2LBloom
 		if verifrt.Param("OVERTQ", 0) == 1 {
 			layers |= zz2LTQ
 		}
 		w := zz2NewWorld(layers, true, func(bk *zz2Back) Blockstore { return zz2Lower(bk, true, true) }, 64)
-		ctx, cancel := context.WithCancel(context.Background())
-		defer cancel()
-		w.back.cancel = cancel
 		complete, _ := zz2SetEnum(w, "rebuild")
+		mode, at := w.back.enumMode, w.back.enumAt
+		wasActive := w.bc.BloomActive()
 		c := w.pool[w.focus].cid(0)
 		twin := w.back.clone()
 
 		want := zz2Do(twin, w.pool, op, c, w.focus, 0, false)
-		// Under the engine the operation is issued once, concurrently with Rebuild. Natively (zz2Overlap) the
-		// operation is issued again and again until Rebuild has returned (every operation here is idempotent
-		// and the store is otherwise quiet, so each answer must be `want`); the first deviating answer is kept.
+		// Under the engine the operation is issued once, concurrently with one Rebuild. Natively (zz2Overlap)
+		// the operation is issued again and again (every answer must be `want`: reads and Put/PutMany are
+		// idempotent, a Delete is preceded by a Put of the block from the second round on) while Rebuild with the
+		// scenario's enumeration outcome alternates with a Rebuild that brings the filter back to the activeness
+		// it started from. The first deviating answer / store state is kept.
 		var got zz2Res
 		var rerr error
-		zz2Overlap(func() bool {
+		stateOK := true
+		ctx0, cancel0 := context.WithCancel(context.Background())
+		defer cancel0()
+		w.back.cancel = cancel0
+		rebuild := func(mode, at int) error {
+			ctx, cancel := context.WithCancel(context.Background())
+			defer cancel()
+			w.back.cancel, w.back.enumMode, w.back.enumAt = cancel, mode, at
+			return w.bc.Rebuild(ctx)
+		}
+		var prepare, rearm func()
+		if op == zz2Delete {
+			prepare = func() { zz2Do(w.top, w.pool, zz2Put, c, w.focus, 0, false) }
+		}
+		if complete != wasActive {
+			rearm = func() {
+				if wasActive {
+					rebuild(0, 0)
+				} else {
+					rebuild(1, 0)
+				}
+			}
+		}
+		zz2Overlap(prepare, func() bool {
 			got = zz2Do(w.top, w.pool, op, c, w.focus, 0, false)
-			return zz2Same(got, want)
+			if !verifrt.Symbolic() && op != zz2Has && op != zz2Get && op != zz2GetSize {
+				w.back.mu.Lock()
+				stateOK = zz2SameState(w.back, twin)
+				w.back.mu.Unlock()
+			}
+			return stateOK && zz2Same(got, want)
 		}, func() {
-			rerr = w.bc.Rebuild(ctx)
-		})
+			if verifrt.Symbolic() {
+				rerr = w.bc.Rebuild(ctx0) // context prepared outside: no extra scheduling points
+			} else {
+				rerr = rebuild(mode, at)
+			}
+		}, rearm)
+		verifrt.Assert("C02.conc-rebuild-store-state-equals-uncached-store", stateOK)
 
 		if want.errk == 0 && op == zz2Has && want.has {
 			verifrt.Assert("C02.conc-rebuild-stored-block-not-reported-missing", got.errk == 0 && got.has)
@@ -252,7 +309,7 @@ func zz2ConcRebuild(ops []int) {
 		}
 		w.checkInvariant("conc-rebuild-")
 		w.checkReads("conc-rebuild-then-")
-	})
+	}()
 	verifrt.Reach("end")
 }
 
